@@ -194,11 +194,35 @@ def coq_sources():
     return sorted(f for f in os.listdir(COQ) if f.endswith(".v"))
 
 
-def coq_grep_forbidden():
-    """returns list of (file, line, text) for forbidden vernacular outside comments"""
+def coq_deps(prop):
+    """the .v files Properties_<prop>.v depends on (transitively, through `Require ... CV.X`), itself included"""
+    seen, todo = set(), ["Properties_%s.v" % prop]
+    while todo:
+        f = todo.pop()
+        if f in seen:
+            continue
+        seen.add(f)
+        try:
+            txt = open(os.path.join(COQ, f)).read()
+        except OSError:
+            continue
+        for m in re.finditer(r"\bCV\.([A-Za-z0-9_]+)", txt):
+            todo.append(m.group(1) + ".v")
+        for m in re.finditer(r"From\s+CV\s+Require\s+(?:Import|Export)?\s*([^.]*)\.", txt):
+            for n in m.group(1).split():
+                todo.append(n + ".v")
+    return sorted(f for f in seen if os.path.exists(os.path.join(COQ, f)))
+
+
+def coq_grep_forbidden(prop=None):
+    """returns list of (file, line, text) for forbidden vernacular outside comments, in the files the
+    property's theorems depend on (every file of the development when prop is None)"""
     hits = []
-    for f in coq_sources():
-        txt = open(os.path.join(COQ, f)).read()
+    for f in (coq_deps(prop) if prop else coq_sources()):
+        try:
+            txt = open(os.path.join(COQ, f)).read()
+        except OSError:
+            continue
         # strip comments (nested)
         out, depth, i = [], 0, 0
         while i < len(txt):
@@ -465,7 +489,7 @@ def proof_status(ctx, prop):
     """builds Properties_<prop>.vo (full build), greps for forbidden vernacular, re-runs Print
     Assumptions; returns dict for the evidence and a bool `ok`"""
     ok, log = coq_make(["Properties_%s.vo" % prop])
-    hits = coq_grep_forbidden()
+    hits = coq_grep_forbidden(prop)
     thms, ass = coq_assumptions(prop)
     discharged = 0
     axioms = set()
@@ -486,7 +510,8 @@ def proof_status(ctx, prop):
            "theorems": thms, "axioms_used": sorted(axioms),
            "checker_cmd": "cd /verif/coq && coq_makefile -f _CoqProject -o Makefile && make -j16 Properties_%s.vo "
                           "&& coqc -Q . CV <Print Assumptions for each theorem>" % prop,
-           "forbidden_vernacular_hits": ["%s:%d: %s" % h for h in hits]}
+           "forbidden_vernacular_hits": ["%s:%d: %s" % h for h in hits],
+           "coq_files_in_scope": coq_deps(prop)}
     good = ok and ass is not None and discharged == len(thms) and not hits and len(thms) > 0
     if not good:
         res["coq_log_tail"] = log[-3000:]
